@@ -109,8 +109,64 @@ def run(ctx):
     ctx.evaluations += 1
     if [snapshot(a), snapshot(b)] != snap:
         ctx.fail({"kind": "c17", "entry": "add(out=)", "variant": "out"}, "add(a, b, out=...) modified an input", ["entry:add", "out", "mutation"])
+    run_out_targets(ctx)
     ctx.extra["catalogue_entries"] = len(ents)
     ctx.sample({"entry": "multiply", "variant": "pre-aligned", "checked": "shape, dtype, names, keys and buffer bytes of every argument before/after"})
+
+
+def run_out_targets(ctx):
+    """explicit output targets next to operands built by the same constructor call, and polynomials built from a caller's
+    array: the operand (the array) is a different object from the target, so writing the target must leave it alone
+    (seeded changes C17-13 / C17-14: a constructor that adopts the caller's buffer, a memoised constructor result - every single
+    call harmless, the damage done by a later call that writes into a result)"""
+    rng = ctx.rng("out-targets")
+    ctors = [("variable(2)", lambda: numpoly.variable(2)), ("variable(3)", lambda: numpoly.variable(3)), ("symbols('q0:2')", lambda: numpoly.symbols("q0:2")),
+             ("symbols('q1')", lambda: numpoly.symbols("q1")), ("monomial(3)", lambda: numpoly.monomial(3)), ("monomial(2, dimensions=2)", lambda: numpoly.monomial(2, dimensions=2)),
+             ("variable(2).reshape(2, 1)", lambda: numpoly.variable(2).reshape(2, 1)), ("polynomial([1, 2])", lambda: numpoly.polynomial([1, 2]))]
+    for label, ctor in ctors:
+        for op, call in (("multiply(a, 5, out=b)", lambda a, b: numpoly.multiply(a, 5, out=b)), ("add(a, a, out=b)", lambda a, b: numpoly.add(a, a, out=b)),
+                         ("copyto(b, 0)", lambda a, b: numpoly.copyto(b, 0))):
+            ctx.evaluations += 1
+            ctx.count("out-targets")
+            case = {"kind": "out-target", "constructor": label, "call": op}
+            try:
+                a, b = ctor(), ctor()
+                snap = snapshot(a)
+                with warnings.catch_warnings():
+                    warnings.simplefilter("ignore")
+                    call(a, b)
+            except Exception:  # noqa: BLE001 - a target that cannot take the result is not the point here
+                ctx.count("out-targets.raises")
+                continue
+            if snapshot(a) != snap:
+                ctx.fail(case, f"a = {label}; b = {label}; {op} changed a (now {a})", ["out-target", "mutation"])
+                continue
+            fresh = ctor()
+            if snapshot(fresh)[1:] != snap[1:]:
+                ctx.fail(case, f"after b = {label}; {op} a fresh {label} is {fresh}", ["out-target", "constructor-state"])
+    for dt in ("int64", "float64", "int32", "complex128"):
+        for shape in ((3,), (2, 2), ()):
+            arr = (numpy.arange(int(numpy.prod(shape, dtype=int)) or 1).reshape(shape) + 2).astype(dt)
+            routes = [("polynomial(arr)", lambda: numpoly.polynomial(arr)), ("aspolynomial(arr)", lambda: numpoly.aspolynomial(arr)),
+                      ("polynomial_from_attributes([[0]], [arr])", lambda: numpoly.polynomial_from_attributes([[0]], [arr])),
+                      ("polynomial_from_attributes([[2]], [arr], retain_coefficients=True)", lambda: numpoly.polynomial_from_attributes([[2]], [arr], retain_coefficients=True))]
+            for label, build in routes:
+                for op, call in (("copyto(c, 0)", lambda c: numpoly.copyto(c, 0)), ("add(arr, 10, out=c)", lambda c: numpoly.add(arr, 10, out=c)),
+                                 ("multiply(c, 3, out=c)", lambda c: numpoly.multiply(c, 3, out=c))):
+                    ctx.evaluations += 1
+                    ctx.count("out-targets")
+                    case = {"kind": "out-target", "constructor": label, "call": op, "dtype": dt, "shape": list(shape)}
+                    before = arr.copy()
+                    try:
+                        c = build()
+                        with warnings.catch_warnings():
+                            warnings.simplefilter("ignore")
+                            call(c)
+                    except Exception:  # noqa: BLE001
+                        ctx.count("out-targets.raises")
+                    if not numpy.array_equal(arr, before):
+                        ctx.fail(case, f"c = {label} for a caller's {dt} array {before.tolist()}; {op} changed the caller's array to {arr.tolist()}", ["out-target", "mutation", "adopted-buffer"])
+                        arr[...] = before
 
 
 def search(ctx):
@@ -120,6 +176,10 @@ def search(ctx):
 
 def replay(ctx, case):
     n = len(ctx.failures)
+    if case.get("kind") == "out-target":
+        run_out_targets(ctx)
+        hits = [f for f in ctx.failures[n:] if f["case"].get("constructor") == case["constructor"]]
+        return hits[0]["what"] if hits else None
     e = next(x for x in catalogue.entries() if x.name == case["entry"])
     args = catalogue.build(case["spec"])
     variants = {"as-generated": lambda: args, "pre-aligned": lambda: aligned_variant(args), "raising": lambda: raising_variant(args)}
